@@ -61,4 +61,41 @@ def boundaryOK (rest : List Char) : Prop :=
   | [] => True
   | c :: _ => c.val < 128 ∧ c ∉ wordChars ∧ c ≠ '.' ∧ c ≠ '+' ∧ c ≠ '-'
 
+/-! ### decimal floating constants (C11 §6.4.4.2) -/
+
+/-- floating suffixes of the standard -/
+def floatSuffixes : List String := ["", "f", "F", "l", "L"]
+
+/-- exponent part `e[+-]?D+` -/
+structure ExpPart where
+  e : Char
+  sign : Option Char
+  digits : List Char
+deriving Repr
+
+def ExpPart.WF (x : ExpPart) : Prop :=
+  (x.e = 'e' ∨ x.e = 'E') ∧ (∀ s, x.sign = some s → s = '+' ∨ s = '-') ∧
+  x.digits ≠ [] ∧ ∀ c ∈ x.digits, c ∈ decDigits
+
+def ExpPart.render (x : ExpPart) : List Char := x.e :: (x.sign.toList ++ x.digits)
+
+def ExpPart.renderOpt : Option ExpPart → List Char
+  | some y => y.render
+  | none => []
+
+/-- `D+ Exp` and `D* . D+ Exp?` / `D+ . Exp?` -/
+inductive DecFloat
+  | exp (ip : List Char) (x : ExpPart) (sfx : String)
+  | frac (ip fp : List Char) (x : Option ExpPart) (sfx : String)
+deriving Repr
+
+def DecFloat.WF : DecFloat → Prop
+  | .exp ip x sfx => ip ≠ [] ∧ (∀ c ∈ ip, c ∈ decDigits) ∧ x.WF ∧ sfx ∈ floatSuffixes
+  | .frac ip fp x sfx => (ip ≠ [] ∨ fp ≠ []) ∧ (∀ c ∈ ip, c ∈ decDigits) ∧ (∀ c ∈ fp, c ∈ decDigits) ∧
+      (∀ y, x = some y → y.WF) ∧ sfx ∈ floatSuffixes
+
+def DecFloat.render : DecFloat → List Char
+  | .exp ip x sfx => ip ++ x.render ++ sfx.toList
+  | .frac ip fp x sfx => ip ++ '.' :: fp ++ ExpPart.renderOpt x ++ sfx.toList
+
 end Norm.Spec
